@@ -79,6 +79,9 @@ func paramDefault(p ParamSpec) any {
 	case "string":
 		return "dflt"
 	default:
+		if p.Name != "pa" {
+			return []any{2500000.0, 5.0, 5.0} // a seven-digit item as well
+		}
 		return []any{5.0, 5.0, 6.0} // a repeated item: every one of them has to be written
 	}
 }
